@@ -99,6 +99,39 @@ func c03gLookup(x *c03gExplicit, cache *route.GlobCache) (got int, err error) {
 	return n, nil
 }
 
+// c03gDiffers adds the same classification as the route-package harness (c03Features).
+func c03gDiffers(f map[string]any, x *c03gExplicit, got int) {
+	var w, g *c03gRoute
+	for i := range x.Routes {
+		if x.Routes[i].ID == x.Want {
+			w = &x.Routes[i]
+		}
+		if x.Routes[i].ID == got {
+			g = &x.Routes[i]
+		}
+	}
+	switch {
+	case w == nil || g == nil:
+		f["differs"] = "unknown-route"
+	case strings.ToLower(w.Host) != strings.ToLower(g.Host):
+		f["differs"] = "host"
+		if strings.ToLower(g.Host) == "*"+strings.ToLower(w.Host) {
+			f["detail"] = "star-glued-to-exact"
+		} else {
+			f["detail"] = "other"
+		}
+	default:
+		f["differs"] = "path"
+		lw, lg := strings.ToLower(w.Path), strings.ToLower(g.Path)
+		rawRelated := strings.HasPrefix(w.Path, g.Path) || strings.HasPrefix(g.Path, w.Path)
+		if (strings.HasPrefix(lw, lg) || strings.HasPrefix(lg, lw)) && !rawRelated {
+			f["detail"] = "paths-differ-in-case"
+		} else {
+			f["detail"] = "other"
+		}
+	}
+}
+
 func TestVerifC03Grpc(t *testing.T) {
 	saved := route.GetTable()
 	defer route.SetTable(saved)
@@ -132,6 +165,7 @@ func TestVerifC03Grpc(t *testing.T) {
 				feat["clause"] = "spurious-route"
 			default:
 				feat["clause"] = "wrong-route"
+				c03gDiffers(feat, x, got)
 			}
 			verifx.Fail(map[string]any{"x": x}, feat, "gRPC lookup dsthost=%q method=%q matcher=%s glob=%v over %v served by r%d, the specification prescribes r%d",
 				x.Host, x.Path, x.Matcher, x.Glob, x.Routes, got, x.Want)
